@@ -148,6 +148,9 @@ class ExprMixin(object):
     def ex_Attribute(self, e, st):
         d = self.dotted(e, st)
         if d is not None:
+            alias = getattr(self.reg, "dotted_globals", {}).get(d)
+            if alias is not None and alias in st.glob:
+                return [(st, st.glob[alias])]
             c = self.module_constant(d, st)
             if c is not None:
                 return [(st, c)]
